@@ -1163,4 +1163,148 @@ theorem deleteOldG_guarded_ext (v : Bytes → Bool) (path : Bytes) (st : St) (le
 
 end guarded
 
+section writephase
+variable {root : PPath}
+
+/-- log-only extension: every new log entry acted on a lexical prefix of `root/comps` (directories may go away) -/
+def LogExt (root : PPath) (comps : List Name) (st st' : St) : Prop :=
+  ∀ m ∈ st'.log, m ∈ st.log ∨ ∃ i, 1 ≤ i ∧ i ≤ comps.length ∧ m.target = root ++ comps.take i
+
+theorem LogExt.refl (comps : List Name) (st : St) : LogExt root comps st st := fun _ hm => Or.inl hm
+
+theorem LogExt.trans {comps : List Name} {a b c : St} (h1 : LogExt root comps a b) (h2 : LogExt root comps b c) :
+    LogExt root comps a c := fun m hm => (h2 m hm).elim (fun h => h1 m h) Or.inr
+
+theorem Ext.toLog {comps : List Name} {a b : St} (h : Ext root comps a b) : LogExt root comps a b := h.log
+
+theorem LogExt.andThen {comps : List Name} {a : St} {r : Step} {f : St → Step}
+    (h1 : LogExt root comps a r.1) (h2 : r.2 = none → LogExt root comps r.1 (f r.1).1) :
+    LogExt root comps a (r.andThen f).1 := by
+  obtain ⟨st1, e⟩ := r
+  cases e with
+  | none => exact h1.trans (h2 rfl)
+  | some e => exact h1
+
+/-- parent phase + `build_file_from_blob`, from a state in which `verify_leading_dirs` has just succeeded -/
+theorem parent_then_blob_log {lead : List Name} {last : Name} {j : Nat} (st : St) (hcl : Clean (lead ++ [last]))
+    (hv : Verified st.fs root lead j) (mode : Nat) (content : Bytes) :
+    LogExt root (lead ++ [last]) st
+      ((ensureParent root lead st).andThen (buildFileFromBlob root (lead ++ [last]) mode content)).1 := by
+  have hcll : Clean lead := fun c hc => hcl c (List.mem_append_left _ hc)
+  obtain ⟨hE1, hE2⟩ := ensureParent_ext st hcll hv
+  refine LogExt.andThen (hE1.widen [last]).toLog ?_
+  intro hok
+  rcases hE2 hok with hall | ⟨hsame, hj1, ct, md, hfile⟩
+  · exact (buildFileFromBlob_ext _ mode content hcl hall).toLog
+  · rw [hsame]
+    have hne : lead ≠ [] := by intro h; subst h; simp at hj1
+    obtain ⟨l2, mid, rfl⟩ : ∃ l2 mid, lead = l2 ++ [mid] :=
+      ⟨lead.dropLast, lead.getLast hne, (List.dropLast_concat_getLast hne).symm⟩
+    have hd2 : DirChain st.fs root l2 l2.length := by
+      have hjl : j = l2.length := by simp at hj1; omega
+      intro i h1 h2
+      have := hv.2.1 i h1 (by omega)
+      rwa [List.take_append_of_le_length h2] at this
+    have e : l2 ++ [mid] ++ [last] = l2 ++ [mid, last] := by simp
+    have := (leaf_parent_file st l2 mid last (by rw [← e]; exact hcl) hd2 hfile mode content).1
+    rw [e, this]
+    exact LogExt.refl _ _
+
+theorem sysRmdir_spec {isEmpty : FS → PPath → Bool} {fs : FS} {cs : List Name} {P : PPath}
+    (hr : resolve fs (fuelFor cs.length) root cs false = .ok P) {fs' : FS} {m : Mut}
+    (h : sysRmdir isEmpty fs root cs = .ok (fs', m)) : m.target = P ∧ fs' = fs.set P none := by
+  simp only [sysRmdir, hr] at h
+  cases hp : fs P with
+  | none => simp [hp] at h
+  | some n =>
+    cases n with
+    | dir =>
+      simp only [hp] at h
+      split at h
+      · simp only [Except.ok.injEq, Prod.mk.injEq] at h
+        obtain ⟨rfl, rfl⟩ := h
+        exact ⟨rfl, rfl⟩
+      · cases h
+    | file c md => simp [hp] at h
+    | link t => simp [hp] at h
+
+/-- removing the object at `root/lead/last` keeps the chain of leading directories -/
+theorem chain_after_remove {fs : FS} {lead : List Name} {last : Name} (hd : DirChain fs root lead lead.length) :
+    DirChain (fs.set (root ++ (lead ++ [last])) none) root lead lead.length := by
+  intro i h1 h2
+  rw [FS.set_other]
+  · exact hd i h1 h2
+  · intro he
+    have := congrArg List.length he
+    simp at this; omega
+
+/-- **write step of `update_working_tree` with a fresh cache**: for EVERY state (whatever the delete phase or
+earlier writes left: removed directories, new symlinks, any `safe` list) each logged call acted on a lexical prefix
+of the validated path. -/
+theorem uwtWriteG_fresh_log (isEmpty : FS → PPath → Bool) (v : Bytes → Bool) (e : Entry) (st : St)
+    (lead : List Name) (last : Name) (hsplit : splitOn pathSep e.path = lead ++ [last]) (hcl : Clean (lead ++ [last])) :
+    LogExt root (lead ++ [last]) st (uwtWriteG true isEmpty v root e st).1 := by
+  have hcll : Clean lead := fun c hc => hcl c (List.mem_append_left _ hc)
+  have hdl : (lead ++ [last]).dropLast = lead := by simp
+  unfold uwtWriteG
+  split
+  · exact LogExt.refl _ _
+  · simp only [hsplit, if_true, hdl]
+    have hst : ({ st with safe := st.safe } : St) = st := by cases st; rfl
+    rw [hst]
+    cases hver : verifyLeadingDirs st.fs root (lead ++ [last]) [] with
+    | error err => exact LogExt.refl _ _
+    | ok safe' =>
+      simp only
+      have hV : ∃ j, Verified st.fs root lead j := by
+        by_cases hl0 : lead = []
+        · subst hl0
+          exact ⟨0, Nat.le_refl _, fun i h1 h2 => by omega, Or.inl rfl⟩
+        · have := verifyLeadingDirs_spec (root := root) (comps := lead ++ [last]) (by rw [hdl]; exact hcll)
+            (by rw [hdl]; exact hl0) (fun i h1 h2 => by simp at h2; omega) hver
+          rw [hdl] at this
+          exact this.1
+      obtain ⟨j, hVj⟩ := hV
+      cases hl : lstat st.fs root (lead ++ [last]) with
+      | error err =>
+        cases err <;> first | exact LogExt.refl _ _ | exact parent_then_blob_log st hcl hVj e.mode e.content
+      | ok cur =>
+        simp only
+        split
+        · exact LogExt.refl _ _
+        · have hlt : lstatTracked st.fs root (lead ++ [last]) = .ok cur := by
+            simp only [lstatTracked, hver, hl]
+          obtain ⟨hd, hP⟩ := lstatTracked_lexical (root := root) hcl hlt
+          have hr := resolve_lex_nofollow st.fs root lead last hcl hd
+          have hrm : ∀ (r : Except Errno (FS × Mut)),
+              (∀ fs' m, r = .ok (fs', m) → m.target = root ++ (lead ++ [last]) ∧ fs' = st.fs.set (root ++ (lead ++ [last])) none) →
+              LogExt root (lead ++ [last]) st ((st.apply r).andThen fun s =>
+                (ensureParent root lead s).andThen (buildFileFromBlob root (lead ++ [last]) e.mode e.content)).1 := by
+            intro r hspec
+            have h1 : LogExt root (lead ++ [last]) st (st.apply r).1 := by
+              cases r with
+              | error er => exact LogExt.refl _ _
+              | ok val =>
+                obtain ⟨ht, _⟩ := hspec val.1 val.2 rfl
+                intro m hm
+                simp only [St.apply, List.mem_append, List.mem_cons, List.not_mem_nil, or_false] at hm
+                rcases hm with hm | rfl
+                · exact Or.inl hm
+                · exact Or.inr ⟨(lead ++ [last]).length, by simp, Nat.le_refl _, by rw [List.take_length]; exact ht⟩
+            refine LogExt.andThen h1 ?_
+            intro hok
+            obtain ⟨fs', m, hr1, hst1⟩ := apply_ok hok
+            obtain ⟨_, rfl⟩ := hspec fs' m hr1
+            rw [hst1]
+            exact parent_then_blob_log _ hcl
+              ⟨Nat.le_refl _, chain_after_remove hd, Or.inl rfl⟩ e.mode e.content
+          cases cur with
+          | dir => exact hrm _ (fun fs' m h => sysRmdir_spec hr h)
+          | file c md =>
+            exact hrm _ (fun fs' m h => by obtain ⟨a, _, b⟩ := sysUnlink_spec hr h; exact ⟨a, b⟩)
+          | link t =>
+            exact hrm _ (fun fs' m h => by obtain ⟨a, _, b⟩ := sysUnlink_spec hr h; exact ⟨a, b⟩)
+
+end writephase
+
 end Dulwich.Checkout
